@@ -354,7 +354,7 @@ func TestPairs(t *testing.T) {
 			return pairCase{S: drawSeconds(t), N: drawNanos(t)}
 		},
 		Check: checkPair, NonTrivial: pairNonTrivial, Classes: pairClasses,
-		Quick: 60000, Thorough: 1500000,
+		Quick: 150000, Thorough: 1500000,
 	})
 }
 
@@ -459,7 +459,7 @@ func TestDurations(t *testing.T) {
 			}
 			return out
 		},
-		Quick: 40000, Thorough: 1500000,
+		Quick: 80000, Thorough: 1500000,
 	})
 }
 
@@ -647,7 +647,7 @@ func TestTimes(t *testing.T) {
 			}
 			return out
 		},
-		Quick: 40000, Thorough: 1000000,
+		Quick: 80000, Thorough: 1000000,
 	})
 }
 
